@@ -272,7 +272,8 @@ def textPlain : Bytes := ofStr "text/plain; charset=utf-8"
 
 def mkCfg (cookies : List (Bytes × Bytes)) (headers form query : Multi) (allowGet : Bool) : ClientCfg :=
   { cookies, headers, form, query, allowGetPayload := allowGet,
-    detect := fun _ => textPlain,
+    -- `http.DetectContentType` on the harness's alphabet (printable text; NUL only as padding)
+    detect := fun b => if b.any (· == 0) then ofStr "application/octet-stream" else textPlain,
     boundaryCT := ofStr "multipart/form-data; boundary=B",
     formCT := ofStr "application/x-www-form-urlencoded",
     jsonCT := ofStr "application/json; charset=utf-8",
